@@ -6,7 +6,10 @@ the per-arm statistics of total / train / test (count, sum, min, max, mean, std)
 (train + test = total), and the default evaluation for the min / mean / max analyses: observed reward where
 prediction == logged decision, else the predicted arm's training statistic (or, for neighbourhood simulators
 with is_quick=False, the row's neighbourhood statistic when it has one); evaluated counts must sum to the
-number of (batch / test) rows and the analyses must be ordered."""
+number of (batch / test) rows and the analyses must be ordered.
+
+As built: Neighbourhood records and sizes of Radius / KNearest simulators are recomputed independently in exact integer arithmetic from the inputs (history = training rows + earlier batches); a record counts as a neighbourhood statistic only if it holds observations. Multi-chunk runs through the GB-scale hook; one genuine > 1 GB simulation in the thorough tier.
+"""
 from mon import env  # noqa: F401
 import math
 
